@@ -97,6 +97,17 @@ impl Number {
                     .round()
             };
 
+            // Work around a bug in pretty_dtoa: it panics if a number is rounded up while all
+            // of its digits are removed by `max_decimal_digits` (e.g. 0.7 with zero decimal
+            // digits). Rounding numbers below 1 beforehand avoids this situation.
+            let number = match config.max_decimal_digits {
+                Some(digits) if number.abs() < 1.0 => {
+                    let scale = 10.0_f64.powi(digits as i32);
+                    (number * scale).round() / scale
+                }
+                _ => number,
+            };
+
             let formatted_number = dtoa(number, config);
 
             if formatted_number.contains('.') && !formatted_number.contains('e') {
